@@ -6,6 +6,8 @@ import (
 	"fmt"
 	"hash/fnv"
 	"os"
+	"path/filepath"
+	"runtime"
 	"sort"
 	"strings"
 	"sync"
@@ -100,17 +102,22 @@ func (w *worker) startWatchdog(limit time.Duration) {
 				continue
 			}
 			// a task is spinning without ever reaching a seam: report and leave (the goroutine cannot be stopped)
+			if dir := os.Getenv("VERIF_HANG_DUMP"); dir != "" {
+				buf := make([]byte, 1<<22)
+				buf = buf[:runtime.Stack(buf, true)]
+				os.WriteFile(filepath.Join(dir, fmt.Sprintf("hang-%d.stacks", run)), buf, 0o644)
+			}
 			res := w.res
 			key := "stall:wall-clock-hang"
 			if w.job.Mode == "replay" {
 				res.ReplayKey = key
 				res.Notes = append(res.Notes, fmt.Sprintf("run did not finish within %s of wall-clock time: a task never returned to a scheduler seam (infinite loop?)", limit))
-			} else if prop == "C14" {
+			} else if prop == "C14" || prop == "C20" {
 				rec := append([]uint32(nil), tp.Rec...)
 				res.Violations = append(res.Violations, Violation{Key: key, Replay: Replay{Property: prop, FindingKey: key, Seed: w.job.Seed, Run: run, Pkg: pkg.Name, Spec: pkg.Spec, Tape: rec,
 					Trace:    []string{"the tape holds the choices made until the hang; the remaining choices are 0 (keep running the current task)"},
-					Observed: fmt.Sprintf("run did not finish within %s of wall-clock time: a server task never returned to a scheduler seam", limit),
-					Expected: "every server task terminates"}})
+					Observed: fmt.Sprintf("run did not finish within %s of wall-clock time: a task never returned to a scheduler seam (it spins, or it waits on a real lock that a parked task holds - two requests sharing one body or buffer)", limit),
+					Expected: "every task terminates or reaches a seam"}})
 				res.Notes = append(res.Notes, "worker stopped after a hang; its remaining run indices were not executed")
 			} else {
 				res.HarnessErr = fmt.Sprintf("run %d (pkg %s) hung for %s", run, pkg.Name, limit)
